@@ -236,7 +236,20 @@ pub fn run_case(case: &Case) -> Outcome {
             };
             let ry0: Vec<f64> = comps.iter().flat_map(|c| [c.3.re, c.3.im]).collect();
             let rrun = run_real(solver, false, 2 * d, &calls, &ry0, probe2.clone(), &rrhs, MAX_POINTS, 0);
-            if probe.borrow().budget_hit || probe2.borrow().budget_hit {
+            // One formulation exhausting the derivative budget while the equivalent one finishes with less than a
+            // tenth of it is a disagreement of the pair (a solve that spins), not a case to set aside.
+            let (bh_c, bh_r) = (probe.borrow().budget_hit, probe2.borrow().budget_hit);
+            if bh_c != bh_r {
+                let (done, calls_done, stuck) = if bh_c { (&rrun.end, probe2.borrow().calls, "complex") } else { (&crun.end, probe.borrow().calls, "equivalent real") };
+                if matches!(done, End::Done) && calls_done * 10 <= DERIV_BUDGET {
+                    return o.fail(format!(
+                        "{} with {}: the {stuck} formulation used up the budget of {DERIV_BUDGET} derivative evaluations while the other finished with {calls_done}",
+                        solver.name(),
+                        if bh_c { "complex state" } else { "real state" }
+                    ));
+                }
+            }
+            if bh_c || bh_r {
                 return o.discard("derivative budget exhausted");
             }
             let (cp_, rp_) = match (&crun.end, &rrun.end) {
